@@ -31,6 +31,7 @@ static void mkline(void)
 	line[140] = '\n';
 	line[141] = 0;
 }
+static int want_so = -1, want_eo = -1;	/* expected span on the long line, if known */
 static void check(char *pat)
 {
 	struct rset *rs;
@@ -52,6 +53,10 @@ static void check(char *pat)
 		symx_assert(0 <= g[0] && g[0] <= g[1] && g[1] <= 141, "0 <= start <= end <= length");
 		symx_observe("so", g[0]);
 		symx_observe("eo", g[1]);
+		if (want_so >= 0)
+			symx_assert(g[0] == want_so && g[1] == want_eo, "many groups: the match is the expected one");
+	} else if (want_so >= 0) {
+		symx_assert(0, "many groups: the pattern matches the long line");
 	}
 	r = rset_find(rs, "b\n", 4, g, 0);
 	if (r >= 0)
@@ -99,6 +104,8 @@ void harness(void)
 		for (i = 0; i < k; i++) { pat[len++] = '('; pat[len++] = 'a'; pat[len++] = ')'; }
 	}
 	pat[len] = 0;
+	want_so = 0;
+	want_eo = TMPL == 6 ? 1 : k;
 	check(pat);
 #endif
 	symx_reach("end");
